@@ -83,10 +83,16 @@ theorem dElems_wList (cfg : Cfg) (ver : Ver) (e : Endian) (el : Ty) (vs : List V
   | str =>
     simp only [dElems]
     exact dVec_wList cfg ver e _ _ (by omega) vs hsp hwf hrt hlim pos rest
-  | enum h ls =>
+  | enum h ls x =>
+    simp only [dElems]
+    exact dVec_wList cfg ver e _ _ (by omega) vs hsp hwf hrt hlim pos rest
+  | wstr =>
     simp only [dElems]
     exact dVec_wList cfg ver e _ _ (by omega) vs hsp hwf hrt hlim pos rest
   | struct x ms =>
+    simp only [dElems]
+    exact dVec_wList cfg ver e _ _ (by omega) vs hsp hwf hrt hlim pos rest
+  | union d bs =>
     simp only [dElems]
     exact dVec_wList cfg ver e _ _ (by omega) vs hsp hwf hrt hlim pos rest
   | seq _ => simp [Ty.elemOk] at hel
